@@ -198,7 +198,8 @@ func urrSpec(prop string) func(tier, scenario string) seqx.Spec {
 		depth := 6 // C12: ~10 s
 		dl := 110 * time.Second
 		if prop == "C11" {
-			depth = 5 // ~55 s
+			depth = 5 // ~60-100 s
+			dl = 170 * time.Second
 		}
 		if tier == "thorough" {
 			depth += 2
@@ -303,6 +304,13 @@ func (c *urrInst) Enabled() []seqx.Event {
 			}
 		}
 		ev = append(ev, seqx.Ev("Del", int64(k)))
+	}
+	if c.prop == "C11" && len(c.W.V.TxIDs()) > 0 {
+		// the SMF leaves the outstanding Session Report Requests unanswered until they are abandoned (the retry
+		// count is 0 here, so one expiry is the final one): the numbers they carried stay spent
+		x := seqx.Ev("AbandonReports")
+		x.N = "AbandonReports(all outstanding Session Report Requests time out)"
+		ev = append(ev, x)
 	}
 	// re-establishment (SEID re-use) by a peer that has no live session
 	for p := 0; p < 2; p++ {
@@ -452,6 +460,26 @@ func (c *urrInst) Apply(e seqx.Event) seqx.StepResult {
 			delete(s.seq, u)
 		}
 		c.othersUntouched(j, me.name, k, others)
+	case "AbandonReports":
+		before := c.W.V.SessDumps()
+		for _, id := range c.W.V.TxIDs() {
+			o = c.W.Expire(true, id)
+			if j.Crashed(c.W, o) {
+				break
+			}
+			if n := count(o); n != 0 {
+				j.Fail("abandoned-request-sent-again", "the final expiry of a Session Report Request (retry count 0) produced %d datagram(s)", n)
+			}
+		}
+		if len(c.W.V.TxIDs()) != 0 {
+			j.Fail("bookkeeping-not-released", "transmit transactions left after their final expiry: %v", c.W.V.TxIDs())
+		}
+		after := c.W.V.SessDumps()
+		for up, d := range before {
+			if after[up] != d {
+				j.Fail("urseqn-changed-by-timeout", "abandoning unanswered Session Report Requests changed session %s:\n%s\n---\n%s", c.Label(up), d, after[up])
+			}
+		}
 	case "KReport":
 		k, i, perio := int(e.A[0]), int(e.A[1]), e.A[2] == 1
 		s := c.sess[k]
